@@ -125,3 +125,47 @@ func VerifC15_safeDivide() {
 		vReach("rejected")
 	}
 }
+
+// C15: a divider fault at ANY division made for a round - the first calcTactic, a retry of
+// calcTactic after the round had to wait for a release, either division of recalcTactic - in
+// any state of the discipline: the round fails with ErrDividerBad and hands out nothing more.
+// gosym: mode=int
+func VerifC15_round_fault() {
+	n := vParam("n", 2)
+	e := vRoundSetup(n, -1)
+	d := e.d
+	for i, p := range e.ps {
+		in := d.inputs[p]
+		switch vChoose("input", 3) {
+		case 0: // idle
+			in.Drained = false
+		case 1: // has data
+			in.Drained = false
+			e.preload(i, 1+vChoose("items", 2))
+		case 2:
+			in.Drained = true
+			close(e.ins[i])
+		}
+		d.inputs[p] = in
+	}
+	e.faultAt = vChoose("fault", 4) // call index within the round
+	vOnBlock(d.feedback, func() {
+		if vSumAssert("in flight", e.G...) == 0 {
+			vDecline() // nothing left to release
+			return
+		}
+		i := vChoose("release", e.n)
+		vAssume(e.G[i] >= 1)
+		d.feedback <- e.ps[i]
+	})
+	vExpect("BLOCKED", "ok") // every handler idle and nothing to release: the round waits (not the subject here)
+	_, err := d.base()
+	if e.faultSeen {
+		vAssert(err == ErrDividerBad, "C15: a divider fault at any division of a round makes the round fail with ErrDividerBad")
+		vAssert(e.sendsAfterFault == 0, "C15: nothing is handed out after a divider fault")
+		vReach("fault")
+		return
+	}
+	vAssert(err == nil, "C15: no error without a divider fault")
+	vReach("nofault")
+}
